@@ -10,12 +10,18 @@ package common
 
 import (
 	"context"
+	"database/sql"
+	"database/sql/driver"
 	"errors"
+	"io"
+	"regexp"
+	"strconv"
 	"math/big"
 	"reflect"
 	"strings"
 
 	"github.com/uptrace/bun"
+	"github.com/uptrace/bun/dialect/pgdialect"
 
 	"github.com/formancehq/go-libs/v5/pkg/storage/bun/paginate"
 
@@ -382,6 +388,67 @@ func Harness_C21_col_n0_ps2_desc() { c21Walk(0, 2, paginate.OrderDesc) }
 func Harness_C21_col_n5_ps2_desc() { c21Walk(5, 2, paginate.OrderDesc) }
 func Harness_C21_col_n5_ps1_asc()  { c21Walk(5, 1, paginate.OrderAsc) }
 
+// ---- native replay of the statement-level obligations: the real repository on real bun over a recording driver
+
+type c21Conn struct{ stmts *[]string }
+
+func (c c21Conn) Prepare(string) (driver.Stmt, error) { return nil, io.EOF }
+func (c c21Conn) Close() error                        { return nil }
+func (c c21Conn) Begin() (driver.Tx, error)           { return nil, io.EOF }
+func (c c21Conn) QueryContext(_ context.Context, q string, _ []driver.NamedValue) (driver.Rows, error) {
+	*c.stmts = append(*c.stmts, q)
+	return c21Rows{}, nil
+}
+
+type c21Rows struct{}
+
+func (c21Rows) Columns() []string         { return []string{} }
+func (c21Rows) Close() error              { return nil }
+func (c21Rows) Next([]driver.Value) error { return io.EOF }
+
+type c21Connector struct{ stmts *[]string }
+
+func (c c21Connector) Connect(context.Context) (driver.Conn, error) { return c21Conn{c.stmts}, nil }
+func (c c21Connector) Driver() driver.Driver                        { return nil }
+
+type c21NativeHandler struct {
+	c21Handler
+	db *bun.DB
+}
+
+func (h c21NativeHandler) BuildDataset(RepositoryHandlerBuildContext[any]) (*bun.SelectQuery, error) {
+	return h.db.NewSelect().TableExpr("items").Column("id"), nil
+}
+
+var (
+	c21LimitRe  = regexp.MustCompile(`LIMIT (-?\d+)`)
+	c21OffsetRe = regexp.MustCompile(`OFFSET (-?\d+)`)
+)
+
+// c21LimitOffset: the LIMIT and OFFSET (-1 when absent) of the statement the repository emits for q
+func c21LimitOffset(q PaginatedQuery[any]) (limit, offset, limits int) {
+	if verifIsSymbolic() {
+		return verifBunInt("Limit", 0), verifBunInt("Offset", 0), verifBunCount("Limit")
+	}
+	var stmts []string
+	db := bun.NewDB(sql.OpenDB(c21Connector{&stmts}), pgdialect.New())
+	repo := NewPaginatedResourceRepository[c21Item, any](c21NativeHandler{db: db}, "id", paginate.OrderDesc)
+	_, _ = repo.Paginate(context.Background(), q)
+	limit, offset = -1, -1
+	if len(stmts) > 0 {
+		last := stmts[len(stmts)-1]
+		ms := c21LimitRe.FindAllStringSubmatch(last, -1)
+		limits = len(ms)
+		if len(ms) > 0 {
+			limit, _ = strconv.Atoi(ms[0][1])
+		}
+		if m := c21OffsetRe.FindStringSubmatch(last); m != nil {
+			offset, _ = strconv.Atoi(m[1])
+		}
+	}
+	return
+}
+
 // the LIMIT / OFFSET the paginators ask for, for every page size (symbolic): pageSize+1 rows from the cursor position
 func Harness_C21_limit_for_any_page_size_column() {
 	ps := nondetUint64("pageSize")
@@ -389,9 +456,12 @@ func Harness_C21_limit_for_any_page_size_column() {
 	order := []paginate.Order{paginate.OrderAsc, paginate.OrderDesc}[nondetChoice("order", 2)]
 	all := c21Items(2)
 	q := ColumnPaginatedQuery[any]{InitialPaginatedQuery: InitialPaginatedQuery[any]{Column: "id", Order: &order, PageSize: ps}}
-	_, err := c21Fetch(all, q)
-	verifAssert("C21:build-cursor-succeeds", err == nil)
-	verifAssert("C21:statement-asks-for-page-size-plus-one-rows", verifBunCount("Limit") == 1 && verifBunInt("Limit", 0) == int(ps)+1)
+	if verifIsSymbolic() {
+		_, err := c21Fetch(all, q)
+		verifAssert("C21:build-cursor-succeeds", err == nil)
+	}
+	limit, _, limits := c21LimitOffset(q)
+	verifAssert("C21:statement-asks-for-page-size-plus-one-rows", limits == 1 && limit == int(ps)+1)
 	verifReach("end")
 }
 
@@ -401,9 +471,12 @@ func Harness_C21_limit_for_any_page_size_offset() {
 	order := []paginate.Order{paginate.OrderAsc, paginate.OrderDesc}[nondetChoice("order", 2)]
 	all := c21Items(2)
 	q := OffsetPaginatedQuery[any]{InitialPaginatedQuery: InitialPaginatedQuery[any]{Column: "address", Order: &order, PageSize: ps}, Offset: off}
-	_, err := c21Fetch(all, q)
-	verifAssert("C21:build-cursor-succeeds", err == nil)
-	verifAssert("C21:statement-asks-for-page-size-plus-one-rows", verifBunCount("Limit") == 1 && verifBunInt("Limit", 0) == int(ps)+1)
-	verifAssert("C21:statement-skips-offset-rows", (off == 0 && verifBunCount("Offset") == 0) || (verifBunCount("Offset") == 1 && verifBunInt("Offset", 0) == int(off)))
+	if verifIsSymbolic() {
+		_, err := c21Fetch(all, q)
+		verifAssert("C21:build-cursor-succeeds", err == nil)
+	}
+	limit, offset, limits := c21LimitOffset(q)
+	verifAssert("C21:statement-asks-for-page-size-plus-one-rows", limits == 1 && limit == int(ps)+1)
+	verifAssert("C21:statement-skips-offset-rows", (off == 0 && offset == -1) || offset == int(off))
 	verifReach("end")
 }
